@@ -73,6 +73,7 @@ type recProto struct {
 	mu     sync.Mutex
 	pkgs   [][]byte
 	client bool
+	slow   time.Duration // server side: time one Invoke takes
 }
 
 // the framing functions the real endpoints use: the server's tars.Protocol.ParsePackage and the client's
@@ -89,6 +90,9 @@ func (r *recProto) add(pkg []byte) {
 }
 func (r *recProto) Invoke(ctx context.Context, pkg []byte) []byte {
 	r.add(pkg)
+	if r.slow > 0 {
+		time.Sleep(r.slow)
+	}
 	return []byte{0, 0, 0, 4}
 }
 func (r *recProto) ParsePackage(b []byte) (int, int) {
@@ -103,7 +107,7 @@ func (r *recProto) DoClose(ctx context.Context)      {}
 func (r *recProto) Recv(pkg []byte)                  { r.add(pkg) }
 
 type c07Case struct {
-	Side      string `json:"side"` // server-pool1 | server-nopool | client
+	Side      string `json:"side"` // server-pool1 | server-pool1q1 | server-nopool | client
 	Max       int    `json:"max"`
 	Chunks    []B    `json:"chunks"`
 	Sent      []B    `json:"sent"`   // packets the generator put into the stream (valid ones before the first illegal prefix)
@@ -121,6 +125,9 @@ func c07Run(c *c07Case) []Failure {
 	switch c.Side {
 	case "server-pool1":
 		transport.VerifServerRecv(rec, &transport.TarsServerConf{Proto: "tcp", Address: "127.0.0.1:0", MaxInvoke: 1, QueueCap: 1000, IdleTimeout: time.Hour, ReadTimeout: time.Second}, conn)
+	case "server-pool1q1": // one worker, a queue of one, slow handlers: bursts fill the queue and the receive loop has to wait
+		rec.slow = 3 * time.Millisecond
+		transport.VerifServerRecv(rec, &transport.TarsServerConf{Proto: "tcp", Address: "127.0.0.1:0", MaxInvoke: 1, QueueCap: 1, IdleTimeout: time.Hour, ReadTimeout: time.Second}, conn)
 	case "server-nopool":
 		transport.VerifServerRecv(rec, &transport.TarsServerConf{Proto: "tcp", Address: "127.0.0.1:0", IdleTimeout: time.Hour, ReadTimeout: time.Second}, conn)
 	case "client":
@@ -146,7 +153,7 @@ func c07Run(c *c07Case) []Failure {
 	closed := conn.closed
 	conn.mu.Unlock()
 	var fs []Failure
-	ordered := c.Side == "server-pool1"
+	ordered := c.Side == "server-pool1" || c.Side == "server-pool1q1"
 	if !ordered { // hand-over order is not observable (one goroutine per packet): compare as multisets in sent order
 		c.Delivered = toB(reorderLike(fromB(c.Delivered), fromB(c.Sent)))
 	}
@@ -266,17 +273,17 @@ func partition(rng *rand.Rand, stream []byte, mode string) [][]byte {
 
 func c07Gen(tier string, rng *rand.Rand) []c07Case {
 	var cs []c07Case
-	n := 36
+	n := 48
 	if tier == "thorough" {
-		n = 400
+		n = 520
 	}
 	maxes := []int{4, 5, 8, 64, 300, 4096, 10485760}
-	sides := []string{"server-pool1", "server-nopool", "client"}
+	sides := []string{"server-pool1", "server-nopool", "client", "server-pool1q1"}
 	modes := []string{"single", "coalesced", "header-cut", "random"}
 	for _, max := range maxes {
 		for it := 0; it < n; it++ {
-			side := sides[it%3]
-			mode := modes[(it/3)%4]
+			side := sides[it%4]
+			mode := modes[(it/4)%4]
 			npk := 1 + rng.Intn(12)
 			if mode == "single" {
 				npk = 1 + rng.Intn(5)
@@ -390,7 +397,7 @@ func init() {
 		runProp(Prop[c07Case]{
 			ID: "C07", Require: "From TarsV Require Import Base.Hex Frame.Framing.", CaseType: "c07_case",
 			Mismatch: "failing_from c07_check", Corr: "Framing.c07_check (recv_loop = real tcpHandler.recv / connection.recv over a scripted net.Conn)",
-			Rule:    "generated streams of 1-12 length-prefixed packets (sizes 4, max-1, max, random) for max in {4,5,8,64,300,4096,10485760}, optionally followed by a proper prefix or an illegal length prefix (0-3, max+1, >max, 2^31.., 2^32-1) plus junk, partitioned into reads as single bytes / coalesced 4096-byte reads / cuts inside headers / random; run through the real server loop (1-worker pool: ordered; no pool: multiset) and the real client loop; class = (side, max, stream kind, partition mode)",
+			Rule:    "generated streams of 1-12 length-prefixed packets (sizes 4, max-1, max, random) for max in {4,5,8,64,300,4096,10485760}, optionally followed by a proper prefix or an illegal length prefix (0-3, max+1, >max, 2^31.., 2^32-1) plus junk, partitioned into reads as single bytes / coalesced 4096-byte reads / cuts inside headers / random; run through the real server loop (1-worker pool: ordered; 1-worker pool with a queue of one and 3 ms handlers, so that bursts fill the queue: ordered; no pool: multiset) and the real client loop; class = (side, max, stream kind, partition mode)",
 			Shard:   80,
 			Workers: 1, // maxPackageLength is process-global
 			Gen:     c07Gen, Run: c07Run, Coq: c07Coq,
